@@ -121,15 +121,11 @@ Definition exec (i : instr) (fr : frame) (frs : list frame) (s : mstate) : sres 
       end
   | ICallCallable nargs _ =>
       match stk with
-      | VFun (FNormal name _) :: r =>
-          (* get_function_idx(name): by NAME, at call time *)
-          match rposition name chunk_names with
-          | Some fidx =>
-              if Nat.leb nargs (length r)
-              then SNext (mk ({| fr_fn := fidx; fr_ip := 0; fr_fp := length r - nargs |} :: fr :: frs) r s)
-              else SPanic
-          | None => SPanic
-          end
+      | VFun (FNormal _ fidx) :: r =>
+          (* the chunk the reference was created for *)
+          if Nat.leb nargs (length r)
+          then SNext (mk ({| fr_fn := fidx; fr_ip := 0; fr_fp := length r - nargs |} :: fr :: frs) r s)
+          else SPanic
       | VFun (FForeign name) :: r =>
           match index_of name (p_ffi C), pop_n nargs r with
           | Some _, Some (args, r') => lift (ffi O name args) (fun w => next (w :: r'))
